@@ -7,6 +7,7 @@ import (
 	"os"
 	"path/filepath"
 	"reflect"
+	"regexp"
 	"sort"
 	"strings"
 	"time"
@@ -262,6 +263,7 @@ func parseGen(g *G, tier string) []M {
 	for _, bs := range bases {
 		raw, src := []byte(bs[0]), bs[1]
 		ops = append(ops, M{"op": "parse", "in": parseInput(raw, src, "none")})
+		ops = append(ops, M{"op": "layouts", "in": parseInput(raw, src, "none")})
 		for _, f := range []formats.Format{formats.SPDX23JSON, formats.CDX13JSON, formats.CDX15JSON, formats.SPDX22JSON, formats.CDX12JSON, "bogus"} {
 			ops = append(ops, M{"op": "parseAs", "f": string(f), "in": parseInput(raw, src, "none")})
 		}
@@ -336,6 +338,34 @@ func parseGen(g *G, tier string) []M {
 			}()
 		}
 	}
+	// the public identifier generator on arbitrary seed bytes
+	ni := 400
+	if tier == "thorough" {
+		ni = 20000
+	}
+	for i := 0; i < ni; i++ {
+		seeds := []any{}
+		for k := 0; k < g.Int(4); k++ {
+			var sb []byte
+			switch g.Int(7) {
+			case 0:
+				sb = []byte(g.Pick([]string{"auto", "node", "auto", "Auto", "node ", ""}))
+			case 1:
+				sb = []byte(g.Pick([]string{"pkg:npm/@scope/name@1.0", "a/b:c d", "..", "-", "ünï", "日本", "a\x00b", "x y/z:w", "C47", "a--b", "\xff\xfe"}))
+			default:
+				n := g.Int(6)
+				for j := 0; j < n; j++ {
+					sb = append(sb, byte(g.Pick2([]int{47, 58, 32, 45, 46, 48, 57, 65, 90, 97, 122, 64, 95, 0, 127, 128, 195, 169, 255, g.Int(256)})))
+				}
+			}
+			bl := []any{}
+			for _, b := range sb {
+				bl = append(bl, float64(b))
+			}
+			seeds = append(seeds, bl)
+		}
+		ops = append(ops, M{"op": "newId", "seeds": seeds})
+	}
 	// byte-level: truncations, garbage, near-miss declarations
 	nb := 300
 	if tier == "thorough" {
@@ -358,6 +388,40 @@ func parseGen(g *G, tier string) []M {
 func (g *G) Pick2F() formats.Format {
 	l := []formats.Format{formats.SPDX23JSON, formats.CDX13JSON, formats.CDX14JSON, formats.CDX15JSON, formats.CDX10JSON}
 	return l[g.Int(len(l))]
+}
+
+var uuidRe = regexp.MustCompile(`[0-9a-f]{8}-[0-9a-f]{4}-[0-9a-f]{4}-[0-9a-f]{4}-[0-9a-f]{12}`)
+
+// layoutsVerdict parses one document in several layouts, twice, and with the detected format
+// stated explicitly; all results must be the same document.
+func layoutsVerdict(b []byte) any {
+	class0, d0 := runParse(b, "")
+	if d0 == nil {
+		return M{"class": class0}
+	}
+	ref := CanonDoc(Normalize(DocJ(d0)))
+	diffs := []any{}
+	cmp := func(name string, bb []byte, f formats.Format) {
+		class, d := runParse(bb, f)
+		if d == nil {
+			diffs = append(diffs, name+": "+class)
+			return
+		}
+		if !Equal(CanonDoc(Normalize(DocJ(d))), ref) {
+			diffs = append(diffs, name+": different document")
+		}
+	}
+	cmp("same bytes again", b, "")
+	for how := 1; how <= 4; how++ {
+		cmp(fmt.Sprintf("re-encoding %d", how), reencode(b, how), "")
+	}
+	if f, err := (&formats.Sniffer{}).SniffReader(bytes.NewReader(b)); err == nil {
+		cmp("format stated explicitly", b, f)
+		cmp("re-encoding 2 with the format stated explicitly", reencode(b, 2), f)
+	} else {
+		diffs = append(diffs, "parsed although detection fails")
+	}
+	return M{"class": "doc", "diffs": diffs, "doc": parseCanon(DocJ(d0))}
 }
 
 type parseResult struct {
@@ -409,6 +473,20 @@ func ExecParse(op M) (res any) {
 			res = fmt.Sprintf("panic: %v", r)
 		}
 	}()
+	if asStr(op["op"]) == "newId" {
+		var seeds []string
+		for _, sd := range asList(op["seeds"]) {
+			var sb []byte
+			for _, x := range asList(sd) {
+				sb = append(sb, byte(asInt(x)))
+			}
+			seeds = append(seeds, string(sb))
+		}
+		id := sbom.NewNodeIdentifier(seeds...)
+		id2 := sbom.NewNodeIdentifier(seeds...)
+		idc := uuidRe.ReplaceAllString(id, "<uuid>")
+		return M{"id": idc, "stable": id == id2 || strings.Contains(idc, "<uuid>")}
+	}
 	in, ok := op["in"].(M)
 	if !ok {
 		return "unknown-op"
@@ -422,6 +500,8 @@ func ExecParse(op M) (res any) {
 		return fmt.Sprintf("known-blowup: %d licence entries", n)
 	}
 	switch asStr(op["op"]) {
+	case "layouts":
+		return layoutsVerdict(b)
 	case "parse":
 		class, doc := runParse(b, "")
 		if doc != nil {
@@ -474,10 +554,114 @@ func maxLicences(b []byte) int {
 	return best
 }
 
+// spdxRefsResolve: every relationship endpoint of the input names an element of the input
+func spdxRefsResolve(b []byte) (ok bool) {
+	defer func() {
+		if recover() != nil {
+			ok = false
+		}
+	}()
+	doc, err := spdxjson.Read(bytes.NewReader(b))
+	if err != nil {
+		return false
+	}
+	ids := map[string]bool{"DOCUMENT": true}
+	for _, p := range doc.Packages {
+		if p != nil {
+			ids[string(p.PackageSPDXIdentifier)] = true
+		}
+	}
+	for _, f := range doc.Files {
+		if f != nil {
+			ids[string(f.FileSPDXIdentifier)] = true
+		}
+	}
+	for _, r := range doc.Relationships {
+		if r == nil || r.RefA.ElementRefID == "" || r.RefB.ElementRefID == "" {
+			continue
+		}
+		if !ids[string(r.RefA.ElementRefID)] || !ids[string(r.RefB.ElementRefID)] || r.RefB.ElementRefID == "DOCUMENT" {
+			return false
+		}
+		if r.RefA.ElementRefID == "DOCUMENT" && !strings.EqualFold(r.Relationship, "DESCRIBES") {
+			return false
+		}
+	}
+	return true
+}
+
 func oracleParse(op M, res any, exec func(M) any) []Finding {
 	var out []Finding
 	if s, ok := res.(string); ok && strings.HasPrefix(s, "known-blowup") {
 		return []Finding{{"C04", "licence expression grows exponentially: " + s}}
+	}
+	closure := func(sk M, what string) {
+		ids := map[string]bool{}
+		for _, n := range asList(sk["nodes"]) {
+			id := asStr(asList(n)[0])
+			if id == "" {
+				out = append(out, Finding{"C05", what + ": a parsed node has an empty identifier"})
+			}
+			if ids[id] && what == "cdx" {
+				out = append(out, Finding{"C05", what + ": parsed identifiers repeat: " + id})
+			}
+			ids[id] = true
+		}
+		for _, r := range asList(sk["roots"]) {
+			if !ids[asStr(r)] {
+				out = append(out, Finding{"C05", fmt.Sprintf("%s: root element %q names no parsed node", what, asStr(r))})
+			}
+		}
+		for _, e := range asList(sk["edges"]) {
+			em := e.(M)
+			if !ids[asStr(em["src"])] {
+				out = append(out, Finding{"C05", fmt.Sprintf("%s: edge source %q names no parsed node", what, asStr(em["src"]))})
+			}
+			for _, t := range asList(em["tos"]) {
+				if !ids[asStr(t)] {
+					out = append(out, Finding{"C05", fmt.Sprintf("%s: edge target %q names no parsed node", what, asStr(t))})
+				}
+			}
+		}
+	}
+	in0, _ := op["in"].(M)
+	isCdx := strings.Contains(asStr(in0["src"]), "cdx")
+	switch asStr(op["op"]) {
+	case "newId":
+		if r, ok := res.(M); ok {
+			id := asStr(r["id"])
+			if id == "" {
+				out = append(out, Finding{"C05", "NewNodeIdentifier returned an empty identifier"})
+			}
+			for _, c := range strings.ReplaceAll(id, "<uuid>", "") {
+				if !(c >= 'a' && c <= 'z' || c >= 'A' && c <= 'Z' || c >= '0' && c <= '9' || c == '-' || c == '.') {
+					out = append(out, Finding{"C05", fmt.Sprintf("NewNodeIdentifier returned %q with the character %q", id, c)})
+					break
+				}
+			}
+			if !strings.Contains(id, "<uuid>") && r["stable"] != true {
+				out = append(out, Finding{"C05", "NewNodeIdentifier is not deterministic for usable seeds"})
+			}
+		}
+		return out
+	case "layouts":
+		if r, ok := res.(M); ok {
+			for _, d := range asList(r["diffs"]) {
+				out = append(out, Finding{"C05", "layout / repetition / explicit format changes the parse: " + asStr(d)})
+			}
+			if sk, ok := r["doc"].(M); ok {
+				if isCdx {
+					closure(sk, "cdx")
+				} else if b, err := base64.StdEncoding.DecodeString(asStr(in0["b64"])); err == nil && spdxRefsResolve(b) {
+					closure(sk, "spdx")
+				}
+			}
+		}
+		return out
+	case "parse", "parseAs":
+		if sk, ok := res.(M); ok && isCdx && sk["nodes"] != nil {
+			closure(sk, "cdx")
+		}
 	}
 	if s, ok := res.(string); ok && s != "err" && s != "unknown-op" {
 		in, _ := op["in"].(M)
@@ -512,14 +696,26 @@ var ParseStream = &Stream{
 	Oracle:     oracleParse,
 	Canon:      parseCanon,
 	Nontrivial: func(op M) bool { return true },
-	OpProps:    func(op M) []string { return []string{"C04"} },
+	OpProps: func(op M) []string {
+		if o := asStr(op["op"]); o == "newId" || o == "layouts" {
+			return []string{"C05"}
+		}
+		return []string{"C04", "C05"}
+	},
 	Reps:       1,
 	Enrich:     parseEnrich,
 	NoModel: func(op M) bool {
 		// the model reproduces the exponential licence string too: keep such inputs from it
+		if asStr(op["op"]) == "newId" {
+			return false
+		}
+		if asStr(op["op"]) == "layouts" {
+			return true
+		}
 		in, _ := op["in"].(M)
 		b, err := base64.StdEncoding.DecodeString(asStr(in["b64"]))
 		return err != nil || maxLicences(b) >= 16
 	},
 	NoShrink:   true,
 }
+
